@@ -334,9 +334,16 @@ else:
 
 
 @implements(np.histogram_bin_edges)
-def histogram_bin_edges(a, *args, **kwargs):
+def histogram_bin_edges(a, bins=10, range=None, weights=None):
+    # like np.histogram: limits given as quantities are read in a's unit
+    range = _sanitize_range(range, units=[a.units])
+    if weights is not None:
+        weights = np.asarray(weights)
     return (
-        np.histogram_bin_edges._implementation(np.asarray(a), *args, **kwargs) * a.units
+        np.histogram_bin_edges._implementation(
+            np.asarray(a), bins=bins, range=range, weights=weights
+        )
+        * a.units
     )
 
 
